@@ -26,7 +26,7 @@ CHECKS = {
          "Same engine for division_connected_variable_groups (x = same-block relation + size variables; group ids auxiliary) and the _with_borders variant (x = border flags + size variables), all group_size forms, native GRAPH_DIVISION operator read per its docstring.",
          "reference translator; spec library; z3; reading of GRAPH_DIVISION", "2/C07"),
  "C10": (TV, "A", "SMT set equality (exists-forall) between the emitted program and a geometric strand specification (z3)",
-         "Same engine for active_edges_connected_crossable / single_cycle_crossable: all segments and both returned arrays free; specification written over the segment graph, never mentioning the split-node construction; frames <= 2x2 quick, <= 3x3 / 2x4 thorough.",
+         "Same engine for active_edges_connected_crossable / single_cycle_crossable: all segments and both returned arrays free; specification written over the segment graph, never mentioning the split-node construction; frames <= 2x3 quick, <= 3x3 / 2x4 thorough; beyond that a spot mode pins segments and returned arrays on 4x5 ... 6x6 frames (auxiliary graph above 128 nodes) while all rank / root auxiliaries stay symbolic.",
          "reference translator; spec library; z3", "2/C10"),
  "C12": (TV, "A+B", "SMT validity of per-element equalities between produced trees and the pointwise meaning (z3); CrossHair for four_neighbor_indices",
          "Each operator form (A op B, A op s, s op A, unary, then, cond; literals; both positions) over 8 shapes incl. empty is applied by the real code; one z3 query per form shows no element can differ from ref(A[i]) op ref(B[i]) for any variable values; helpers over 21 nestings vs Sum(If)/Or/And/distinct; conv2d vs windowed and/or; four_neighbor_indices for unbounded h,w,y,x by CrossHair. Rejections are a finite table (labelled, no solver).",
@@ -53,13 +53,13 @@ CHECKS = {
          "For each of 9 puzzle codecs and the Rooms/ValuedRooms/Grid combinators, every text of length <= 2-4 and every declared (height,width) in 0..2 (0..3 thorough): only None / ValueError / a problem of the declared dimensions that serialises and decodes to itself; URL level with symbolic width/height/name/flags over a fixed body list and a fully symbolic short url. Longer bodies and the recursion-depth risk of Rooms on huge boards are outside the bound.",
          "CrossHair soundness; builtin models (exact except for the stated non-ASCII-digit cut, covered by a finite table)", "2/C17"),
  "C19": ("other", "C+B", "AST->SMT translation of the PRNG kernels (z3 bit-vectors / integers / floating point) + CrossHair symbolic execution of choice, shuffle, neighbour generators, generate_problem",
-         "XorShift.__init__/next are regenerated from source as 64-bit vector terms and proven equal to Marsaglia's xorshift128 step with the state invariant for all seeds/states; randint is translated over mathematical integers with a fresh symbol per draw (loop unrolled twice): range, value a + x mod w, rejection exactly above the limit, ValueError conditions and the multiple-of-w lemma behind uniformity are unsat queries over all (a,b) and draws; random() in [0,1) as an FP query. choice/shuffle (bijection for N<=4), neighbour shape/purity on 2x2, generate_problem soundness with symbolic callback verdicts (<= 2 steps) and reproducibility under the deterministic PRNG (global random as two symbolic feeds) are CrossHair harnesses.",
+         "XorShift.__init__/next are regenerated from source as 64-bit vector terms and proven equal to Marsaglia's xorshift128 step with the state invariant for all seeds/states; randint is translated over mathematical integers with a fresh symbol per draw (loop unrolled twice; additionally decided by a CrossHair harness on the real function, which survives refactorings the translator cannot encode): range, value a + x mod w, rejection exactly above the limit, ValueError conditions and the multiple-of-w lemma behind uniformity are unsat queries over all (a,b) and draws; random() in [0,1) as an FP query. choice/shuffle (bijection for N<=4), neighbour shape/purity on 2x2, generate_problem soundness with symbolic callback verdicts (<= 2 steps) and reproducibility under the deterministic PRNG (global random as two symbolic feeds) are CrossHair harnesses.",
          "Engine C translator side obligations discharged; z3; CrossHair soundness; uniformity is relative to uniform 32-bit draws", "2/C19"),
  "C20": ("other", "C+B", "AST->SMT-LIB strings translation of the boolean parser decided by cvc5 over all strings; CrossHair for name dispatch; finite tables for the rest",
-         "_strtobool: for every string of any length each path's outcome equals the case-insensitive specification (cvc5 str.to_lower + regular expressions; non-ASCII closed by a table over all code points). _get_backend_by_name: every string <= 15 chars (CrossHair). Environment x importable modules x flags, precedence of per-call argument over config, never-native for acyclic, and which class/entry point receives a solve are finite tables run completely (labelled, no solver).",
+         "_strtobool: for every string of any length each path's outcome equals the case-insensitive specification (cvc5 str.to_lower + regular expressions; non-ASCII closed by a table over all code points; a finite table of 100 spellings runs alongside and is all that is left when the translator cannot encode a rewritten parser). _get_backend_by_name: every string <= 15 chars (CrossHair). Environment x importable modules x flags, precedence of per-call argument over config, never-native for acyclic, and which class/entry point receives a solve are finite tables run completely (labelled, no solver).",
          "cvc5 1.0.3; CrossHair; tables are exhaustive over their stated finite domains", "2/C20"),
  "C11": (TV, "A", "SMT set equality (exists-forall) between the program posted by each solve_<puzzle> and a rule specification, per enumerated instance; reported facts checked by SMT on the rules",
-         "24 of the 26 modules named by the property have a rule specification written from the published rules (sudoku, slitherlink, masyu, yajilin, nurikabe, heyawake, akari, norinori, star_battle, fillomino, nurimisaki, yinyang, creek, gokigen, aquarium, building, doppelblock, putteria, geradeweg, compass, lits, castle_wall, view, fivecells). Per instance z3 decides over ALL candidate answer grids and all auxiliaries that the posted program admits exactly the rule-obeying grids, and that the returned is_sat / decided / undecided cells are exactly what the rules force. Instances (board shape + clue layout) are enumerated, not symbolic: that is the bound. simpleloop (generator device) and shakashaka are not covered.",
+         "24 of the 26 modules named by the property have a rule specification written from the published rules (sudoku, slitherlink, masyu, yajilin, nurikabe, heyawake, akari, norinori, star_battle, fillomino, nurimisaki, yinyang, creek, gokigen, aquarium, building, doppelblock, putteria, geradeweg, compass, lits, castle_wall, view, fivecells). Per instance z3 decides over ALL candidate answer grids and all auxiliaries that the posted program admits exactly the rule-obeying grids, and that the returned is_sat / decided / undecided cells are exactly what the rules force. Instances (board shape + clue layout) are enumerated, not symbolic: that is the bound; they include every room layout of the small boards for the room puzzles, options (checkered fillomino), and the same instance after another instance of the same size was solved in the process (each instance runs in its own forked child). simpleloop (generator device) and shakashaka are not covered.",
          "rule specifications (vlib/checks/c11_specs.py) with reading notes; reference translator; spec library; z3", "2/C11"),
 }
 CHECKS["C18"] = ("other", "B", "CrossHair symbolic execution of one inductive step of the real builder: bound parameters as unconstrained symbolic integers, random draws symbolic, every connected partition of a small board as pre-state (selected by a symbolic index)",
